@@ -185,3 +185,102 @@ def compare(prim_r, casts, prim_w):
         return ("reader widens read_%s (sign/zero-extension follows the reader's type) but the writer stores it with write_%s: "
                 "values with the top bit set do not read back as written" % (prim_r, prim_w))
     return None
+
+
+# ---------------------------------------------------------------------------------------------------------------
+# R-FILE-CODEC: scalar prefix agreement of sibling reader / writer functions of file structures (symbolic paths)
+
+FILE_PAIRS = [
+    ("formats::ecl::ecl_06::read_olde_ecl", "formats::ecl::ecl_06::write_olde_ecl"),
+    ("formats::msg::read_msg", "formats::msg::write_msg"),
+    ("formats::std::read_std", "formats::std::write_std"),
+    ("formats::std::read_object", "formats::std::write_object"),
+    ("formats::std::read_quad", "formats::std::write_quad"),
+    ("formats::std::read_instance", "formats::std::write_instance"),
+    ("formats::mission::read_mission_msg", "formats::mission::write_mission_msg"),
+    ("formats::anm::read_write::read_sprite", "formats::anm::read_write::write_sprite"),
+    ("formats::anm::read_write::read_texture", "formats::anm::read_write::write_texture"),
+]
+_IO = re.compile(r"^io::Bin(Read|Write)::(read|write|expect)_|^io::Bin(Reader|Writer)(::<[^>]*>)?::(read|write|expect)_|write_instrs$|read_instrs$")
+_W = {"u8": 1, "i8": 1, "u16": 2, "i16": 2, "u32": 4, "i32": 4, "f32": 4}
+
+
+def _io_prefixes(db, fid):
+    """set of scalar-width prefixes (tuples of byte widths; 'f*' = one or more f32) of the non-error paths, cut at the first
+    loop / vector / blob / nested-structure I/O"""
+    from rules import symeval as SY
+    out = set()
+    for conds, events, fl, st in SY.fn_paths(db, fid, effect_re=_IO):
+        if fl:
+            continue
+        seq = []
+        for e in events:
+            if e[0] == "loop":
+                break
+            if e[0] != "effect":
+                continue
+            nm = e[1]
+            m = re.match(r"^(read|write)_(u8|i8|u16|i16|u32|i32|f32)$", nm)
+            if m:
+                seq.append(_W[m.group(2)])
+                continue
+            m = re.match(r"^read_f32s_(\d)$", nm)
+            if m:
+                seq.extend([4] * int(m.group(1)))
+                continue
+            if nm == "write_f32s":
+                seq.append("f*")
+                continue
+            if nm == "expect_magic":
+                seq.append("magic")
+                continue
+            if nm == "write_all" and not seq:
+                seq.append("magic")
+                continue
+            break
+        out.add(tuple(seq))
+    return out
+
+
+def _compatible(r, w):
+    """reader prefix r and writer prefix w describe the same leading fields (the shorter one is a prefix of the other;
+    a writer 'f*' stands for one or more 4-byte floats; a 4-byte magic matches 'magic' or 4)"""
+    i = j = 0
+    while i < len(r) and j < len(w):
+        a, b = r[i], w[j]
+        if b == "f*":
+            if a != 4:
+                return False
+            while i < len(r) and r[i] == 4:
+                i += 1
+            j += 1
+            continue
+        if a == "magic" or b == "magic":
+            if {a, b} <= {"magic", 4}:
+                i += 1
+                j += 1
+                continue
+            return False
+        if a != b:
+            return False
+        i += 1
+        j += 1
+    return True
+
+
+def file_codec(db, rep, rule="R-FILE-CODEC"):
+    n = 0
+    for rid, wid in FILE_PAIRS:
+        r, w = db.fn(rid), db.fn(wid)
+        rep.fn(r)
+        rep.fn(w)
+        rp, wp = _io_prefixes(db, rid), _io_prefixes(db, wid)
+        n += 1
+        bad = [x for x in sorted(wp, key=str) if not any(_compatible(y, x) for y in rp)]
+        badr = [y for y in sorted(rp, key=str) if not any(_compatible(y, x) for x in wp)]
+        name = wid.rsplit("::", 1)[-1].replace("write_", "")
+        rep.check(not bad and not badr and bool(rp) and bool(wp), rule, "%s|leading fields" % name, w.loc,
+                  "reader %s / writer %s agree on the widths of the leading fields" % (sorted(rp, key=str)[:3], sorted(wp, key=str)[:3]),
+                  "%s writes leading fields of widths %s but %s reads %s: a value is read back from other bytes than it was written to" % (
+                      wid.rsplit("::", 1)[-1], bad or sorted(wp, key=str), rid.rsplit("::", 1)[-1], badr or sorted(rp, key=str)))
+    rep.floor("reader/writer pairs of file structures", n, 9)
